@@ -19,7 +19,7 @@ RULE = ("case = batch of 50 random parameter sets (capacity, initial charge, max
         "parameter set is one evaluation with ~8 real charge calls; non-trivial = parameter set with pilot>0 on a non-full battery; "
         "distinct = distinct (batch, index)")
 ASSUMPTIONS = [
-    "capacity 1..316 kWh log-uniform; max power 0.3..100 kW; transition SoC in [0,0.99]; pilots incl. 0, tiny, exact max, huge; noise off",
+    "capacity 1..316 kWh log-uniform; max power 0.3..100 kW; transition SoC in [0,0.99]; pilots incl. 0, tiny, exact max, huge, +inf (what a default EVSE advertises as its maximum), python/numpy int and float scalars; noise off",
     "stepwise calculation is outside the documented continuous law (documented as less accurate) and is not compared with the ODE",
 ]
 ANCHORS = [
@@ -30,7 +30,8 @@ ANCHORS = [
 ]
 REQUIRED = ["ideal_judged", "l2_judged", "regime:pilot-limited-below-transition", "regime:power-limited-below-transition",
             "regime:crossing", "regime:rampdown", "regime:pilot-below-envelope-start-in-rampdown", "regime:full",
-            "regime:zero-pilot", "reference_crosschecks", "reset_checks", "reset_after_explicit_reset_checks", "split_checks", "same_object_calls_judged"]
+            "regime:zero-pilot", "reference_crosschecks", "reset_checks", "reset_after_explicit_reset_checks", "split_checks", "same_object_calls_judged",
+            "infinite_or_astronomical_pilots", "numpy_scalar_pilots"]
 BUDGET_S = {"quick": 200, "thorough": 2400}
 
 
@@ -70,6 +71,19 @@ def run_case(case, obs):
         V = rng.choice([120, 208, 240, 400, round(rng.uniform(100, 500), 1)])
         Tm = rng.choice([1, 5, 15, 60, 0.5, 7.5, round(rng.uniform(0.1, 120), 2)])
         p = rng.choice([0, 1e-3, 6, 16, 32, pmax * 1000 / V, 200, rng.uniform(0, 2 * pmax * 1000 / V), 1e4])
+        if rng.random() < 0.06:
+            # an unbounded pilot: what UncontrolledCharging sends to a default EVSE (max_rate = inf); also astronomically large ones
+            p = rng.choice([math.inf, math.inf, 1e300, 1e18])
+            obs.ev("infinite_or_astronomical_pilots")
+        pt = rng.random()
+        if pt < 0.15:
+            p = np.float64(p)  # pilots come out of numpy pilot matrices in simulations
+            obs.ev("numpy_scalar_pilots")
+        elif pt < 0.2 and p <= 1e6 and p == int(p):  # (a 64-bit integer pilot of 1e18 A overflows in pilot x voltage: harness artefact, not generated)
+            p = rng.choice([int, np.int64, np.int32])(p)
+            obs.ev("integer_typed_pilots")
+        elif pt < 0.25:
+            p = float(np.float32(p))
         wit = dict(capacity=cap, init=c0, max_power=pmax, tsoc=ts, voltage=V, period=Tm, pilot=p)
         tol = 1e-9 * max(1.0, cap)
         # ---------------- ideal battery
